@@ -586,11 +586,18 @@ class DLC(utils.EventEmitter):
             return
 
         # The peer closed the DLC: this end is closed too.
+        was_opening = (
+            self.state == DLC.State.CONNECTING and self.connection_result is not None
+        )
         self.change_state(DLC.State.DISCONNECTED)
         if self.disconnection_result:
             self.disconnection_result.set_result(None)
             self.disconnection_result = None
         self.multiplexer.on_dlc_disconnection(self)
+        if was_opening:
+            # A DISC instead of the UA for our SABM: the open is refused, like a DM
+            self.connection_result = None
+            self.multiplexer.on_dm_frame(_frame)
         self.emit(self.EVENT_CLOSE)
 
     def on_uih_frame(self, frame: RFCOMM_Frame) -> None:
